@@ -256,12 +256,20 @@ def k_tc_wrong_type(ctx, apid, count, data):
 
 
 def k_crc_helpers(ctx, data):
-    """The module-level CRC helpers of the telecommand module append / rewrite a CRC-16/CCITT-FALSE trailer."""
+    """The library's CRC function and the module-level CRC helpers of the telecommand module compute / append / rewrite a
+    CRC-16/CCITT-FALSE."""
     tcm, sp, check = _imp()
     from spverif.ref.crc import crc16
+    from spacepackets.crc import CRC16_CCITT_FUNC
     d = bytes.fromhex(data)
-    case = {"k": "crc_helpers", "data": data}
+    case = {"k": "crc_helpers", "data": data if len(d) <= 64 else data[:32] + "..", "data_len": len(d)}
+    if len(d) > 64:
+        case = {"k": "crc_helpers", "data": data}
     ctx.case("crc_helpers", d)
+    for form in (bytes, bytearray):
+        ok, v = attempt(CRC16_CCITT_FUNC, form(d))
+        ctx.check("tc.crc", ok and v == crc16(d), "library_crc_function_differs_from_model", f"len%4096={'0' if len(d) % 4096 == 0 and d else 'n'}/{form.__name__}", case,
+                  observed=v if ok else repr(v), expected=crc16(d))
     ok, a = attempt(lambda: bytes(tcm.generate_crc(bytearray(d))))
     ctx.check("tc.crc", ok and a == d + crc16(d).to_bytes(2, "big"), "generate_crc", "", case, observed=a if ok else repr(a))
     if len(d) >= 2:
@@ -277,11 +285,12 @@ def selftest(ctx):
     assert R.tc(1, 22, 17, 1, 0, 0xF, b"").hex() == "1801c01600062f11010000ab62"
     assert R.tc(1, 0, 17, 1, 0, 0xF, b"").hex() == "1801c00000062f11010000161d"
     from spverif.ref.crc import crc16_bitwise
-    from spacepackets.crc import CRC16_CCITT_FUNC
+    from crcmod.predefined import mkPredefinedCrcFun          # the third-party routine itself, not the tree under test
+    third_party = mkPredefinedCrcFun(crc_name="crc-ccitt-false")
     n = 2
     for _ in range(300):
         d = ctx.rng.randbytes(ctx.rng.randrange(0, 200))
-        assert crc16(d) == crc16_bitwise(d) == CRC16_CCITT_FUNC(d)
+        assert crc16(d) == crc16_bitwise(d) == third_party(d)
         p = R.tc(ctx.rng.getrandbits(11), ctx.rng.getrandbits(14), 1, 2, 3, 4, d)
         dd = R.decode_tc(p)
         assert dd["data"] == d and dd["crc_ok"]
@@ -343,7 +352,7 @@ def run(ctx):
              rand_uint(r, 4), rnd_data(n), model_fed=r.random() < 0.5)
     for j in range(ctx.n(1500, 150_000)):
         k_view_history(ctx, ctx.seed * 1_000_003 + ctx.shard[0] * 100_003 + j)
-    for n in list(range(0, 40)) + [255, 256, 1000]:
+    for n in list(range(0, 40)) + [255, 256, 257, 1000, 4095, 4096, 4097, 8191, 8192, 8193, 12288, 16384, 32768, 65535, 65536]:
         k_crc_helpers(ctx, rnd_data(n).hex())
         k_tc_wrong_type(ctx, r.getrandbits(11), r.getrandbits(14), rnd_data(n % 20).hex())
     # rejection clause
